@@ -210,3 +210,6 @@ META = dict(
     assumptions=["calculate_index is only issued when X's readings are complete (the property's precondition)"],
     explanation="after every operation the full per-candle reading dictionaries are term-compared with the state the property prescribes; all candle values symbolic",
 )
+
+# families added after the seeding rounds (kept next to the original bound so that MANIFEST / evidence stay current)
+META["bounds"] = dict(META["bounds"], quick=META["bounds"]["quick"] + "; added after the seeding rounds: " + 'add / remove of a member with its own timeframe in the alphabet; whatever was removed is added back after one more append; calculate_index after dropping the stored reading')
